@@ -95,6 +95,8 @@ def _variants():
     p = list(b["profiles"])
     p[4] = p[4] * (1 + 1e-12)
     V.append(("Kz-tiny", {"profiles": tuple(p)}))
+    # same number of pad cells in x as "halo-other" (cells are 10 m x 7 m) but one more in y
+    V.append(("halo-other-same-x-cells", {"halo": 14.5}))
     # one profile stored in single precision (a Kz read from a float32 file) and the request with exactly the same VALUES in
     # double precision: the solver computes 1/Kz in the precision it is given, so the two results differ in the 9th digit
     p = list(b["profiles"])
@@ -355,7 +357,7 @@ def machine(tier, stats, last_fail):
             self._do(["solve", i])
 
         @rule(i=st.sampled_from([NAMES.index(n) for n in ("tall-all-levels", "tall-middle-levels-swapped", "tall-scalar-level",
-                                                            "tall-middle-node-moved", "Kz-float32", "Kz-float32-values-in-float64")]))
+                                                            "tall-middle-node-moved", "Kz-float32", "Kz-float32-values-in-float64", "halo-other", "halo-other-same-x-cells")]))
         def solve_tall(self, i):
             self._do(["solve", i])
 
